@@ -36,7 +36,7 @@ NB == <<"gcall", <<C>>>>
 Ladders == { <<"tern", C, C, <<"tern", NB, C, C>>>>, <<"tern", C, <<"tern", NB, C, C>>, C>>, <<"tern", C, C, <<"tern", C, C, <<"tern", NB, C, C>>>>>>,
              <<"tern", C, C, <<"tern", C, <<"tern", NB, C, C>>, C>>>>, <<"tern", <<"tern", C, NB, C>>, C, C>>, <<"list", <<C, <<"tern", C, C, <<"tern", NB, C, C>>>>>>>> }
 \* an operator application that fails in the middle of a chain: nothing to its right runs
-FChains == { <<"calc", <<"fcalc", C, C>>, C>>, <<"fcalc", <<"fcalc", C, C>>, C>>, <<"calc", C, <<"fcalc", C, C>>>>, <<"list", <<C, <<"calc", <<"fcalc", C, C>>, C>>, C>>>>,
+FChains == { <<"bsum", <<C, C>>>>, <<"bsum", <<C, <<"bsum", <<C>>>>, C>>>>, <<"calc", <<"fcalc", C, C>>, C>>, <<"fcalc", <<"fcalc", C, C>>, C>>, <<"calc", C, <<"fcalc", C, C>>>>, <<"list", <<C, <<"calc", <<"fcalc", C, C>>, C>>, C>>>>,
              <<"gcall", <<<<"fcalc", C, C>>, C>>>>, <<"map", <<<<<<"fcalc", C, C>>, C>>>>>>, <<"tern", <<"fcalc", C, C>>, C, C>> }
 Shapes == IF Depth = 1 THEN {C, <<"var">>} \cup Over(Kids1) \cup {<<"map", <<<<C, C>>, <<C, C>>>>>>, <<"stmt", <<>>>>, <<"stmt", <<C, C, C>>>>}
           ELSE Ladders \cup FChains \cup Over(Kids2) \cup {<<"stmt", <<a, b, c>>>> : a \in {C, <<"set", C>>}, b \in Kids2, c \in {C, <<"var">>, <<"tern", C, C, C>>}}
@@ -48,7 +48,7 @@ Size(t) ==
     [] t[1] \in {"un", "post", "set", "cset", "setbad", "unk", "setfn", "uun", "upost", "uset"} -> Size(t[2])
     [] t[1] \in {"calc", "ucalc", "fcalc"} -> Size(t[2]) + Size(t[3])
     [] t[1] \in {"tern", "inlist"} -> Size(t[2]) + Size(t[3]) + Size(t[4])
-    [] t[1] \in {"list", "stmt", "gcall", "unkcall", "varcall"} -> SizeSeq(t[2])
+    [] t[1] \in {"list", "stmt", "gcall", "unkcall", "varcall", "bsum"} -> SizeSeq(t[2])
     [] t[1] = "map" -> SizeSeq([i \in 1..2 * Len(t[2]) |-> t[2][(i + 1) \div 2][IF i % 2 = 1 THEN 1 ELSE 2]])
 \* concrete program: leaves numbered base+1.. in source order; mode decides how leaf i is reached
 Leaf(i, mode) == IF mode = "call" \/ (mode = "mixed" /\ i % 2 = 1) THEN <<"call", NAME[i], <<>>>> ELSE <<"ref", NAME[i]>>
@@ -75,6 +75,7 @@ Build(t, base, mode) ==
     [] t[1] = "list" -> <<"list", BuildSeq(t[2], base, mode)>>
     [] t[1] = "stmt" -> <<"stmt", BuildSeq(t[2], base, mode)>>
     [] t[1] = "gcall" -> <<"call", "G", BuildSeq(t[2], base, mode)>>
+    [] t[1] = "bsum" -> <<"call", "sum", BuildSeq(t[2], base, mode)>>           \* the built-in aggregate on booleans: it fails, after ALL its arguments ran
     [] t[1] = "unkcall" -> <<"call", "nosuch", BuildSeq(t[2], base, mode)>>
     [] t[1] = "varcall" -> <<"call", "x", BuildSeq(t[2], base, mode)>>                   \* x is a context *variable*: the global x is called
     [] t[1] = "map" -> <<"map", [i \in 1..Len(t[2]) |->
@@ -110,7 +111,10 @@ Stmts == << <<"bin", "=", X, N1>>, <<"bin", "=", X, SA>>, <<"bin", "+=", X, N2>>
             <<"bin", "|=", X, N1>>, <<"bin", "=", X, <<"list", <<X, Y>>>>>>, <<"bin", "&&", X, Y>>,
             \* the right side itself assigns the target: x op= e must use the value x had *before* e ran
             <<"bin", "+=", X, <<"tern", <<"bin", "==", <<"bin", "=", X, <<"lit", VInt(5)>>>>, <<"none">>>>, <<"lit", VInt(10)>>, <<"lit", VInt(20)>>>>>>,
-            <<"bin", "-=", X, <<"call", "n12", <<<<"bin", "=", X, <<"lit", VInt(100)>>>>>>>>>> >>
+            <<"bin", "-=", X, <<"call", "n12", <<<<"bin", "=", X, <<"lit", VInt(100)>>>>>>>>>>,
+            \* an unknown function is only discovered after its arguments ran (their assignments stay); an unbound name that happens to
+            \* be a registered function's name is just an unbound name
+            <<"call", "nosuch", <<<<"bin", "=", X, N2>>>>>>, <<"bin", "=", X, <<"ref", "sum">>>>, <<"bin", "+=", <<"ref", "mul">>, N1>> >>
 NS == Len(Stmts)
 AssignCtxs == << <<>>, ("x" :> <<"var", VInt(3)>>), ("x" :> <<"var", VInt(3)>>) @@ (YN :> <<"var", VBool(TRUE)>>), ("x" :> <<"fn", "h1">>) @@ ("n12" :> <<"fn", "h12">>),
                 ("n12" :> <<"fn", "h12">>) @@ (YN :> <<"var", VInt(5)>>) >>
